@@ -93,13 +93,21 @@ func coveringProblemN(r *rand.Rand, nn0 int) (front string, n int, strict bool, 
 		}
 		w[i] = 1 + r.Intn(3)
 	}
-	if r.Intn(3) == 0 { // a cost literal fixed at top level by a unit constraint
-		v := 1 + r.Intn(n)
-		l := -lits[v-1]
-		if r.Intn(4) == 0 {
-			l = -l
+	spread := r.Intn(3) == 0 // weights that rarely tie: the order of the terms of a bound constraint matters
+	if spread {
+		for i := range w {
+			w[i] = 1 + r.Intn(6)
 		}
-		cons = append(cons, gen.Clause(l))
+	}
+	if r.Intn(3) == 0 || spread { // cost literals fixed at top level by unit constraints
+		for k := 0; k < 1+r.Intn(2); k++ {
+			v := 1 + r.Intn(n)
+			l := -lits[v-1]
+			if r.Intn(4) == 0 {
+				l = -l
+			}
+			cons = append(cons, gen.Clause(l))
+		}
 	}
 	nn := n
 	if front != "slicenb" {
@@ -289,6 +297,52 @@ func histDesigns(keep string) []core.Design {
 	}
 	return []core.Design{
 		{Name: "hist", Module: "SolverAPI", Cfg: "SolverAPI_quick.cfg", ToCases: toCases, Timeout: 20 * time.Minute, Workers: 8},
+	}
+}
+
+// appendPBDesigns: AppendPB.tla (a pseudo-boolean constraint added to a live solver under top-level
+// facts) in its intended form, the "last term" variant that must violate OutcomeCorrect, and the
+// replay of every enumerated (facts, constraint) pair on the real solver: the facts are unit clauses
+// of the problem (even cases) or are appended one by one after a first Solve (odd cases), then the
+// constraint is appended and the models are enumerated by Solve / AppendClause(blocking clause) rounds.
+func appendPBDesigns(replay bool) []core.Design {
+	toCases := func(env *core.Env, emitted []core.Case) []core.Case {
+		var res []core.Case
+		for i, e := range emitted {
+			c, _ := e["c"].(map[string]any)
+			ctor := gen.Ctor("gteq", toInts(c["lits"]), toInts(c["w"]), int(c["d"].(float64)))
+			facts := toInts(e["facts"])
+			nv := int(e["n"].(float64))
+			var base [][]int
+			ev := []gen.M{gen.Op("solve")}
+			for _, f := range facts {
+				if i%2 == 0 {
+					base = append(base, []int{f})
+				} else {
+					ev = append(ev, gen.M{"op": "append", "c": gen.Clause(f)})
+				}
+			}
+			ev = append(ev, gen.M{"op": "append", "c": ctor})
+			// the models are enumerated inside the alphabet of the property: Solve, then AppendClause of the
+			// clause excluding the model returned, until Unsat (at most 2^n + 1 rounds)
+			for k := 0; k <= 1<<uint(nv); k++ {
+				ev = append(ev, gen.Op("solve"), gen.Op("blocklast"))
+			}
+			res = append(res, gen.APICase("slicenb", nv, true, gen.ClauseCtors(base), false, nil, gen.Cfg(false, 0, 0, false, false, true), ev))
+		}
+		if env.Quick() && len(res) > 5000 {
+			env.Rand.Shuffle(len(res), func(i, j int) { res[i], res[j] = res[j], res[i] })
+			res = res[:5000]
+		}
+		return res
+	}
+	if !replay {
+		toCases = nil
+	}
+	return []core.Design{
+		{Name: "append-pb", Module: "AppendPB", Cfg: "AppendPB_quick.cfg", Tier: "quick", ToCases: toCases, Timeout: 20 * time.Minute, Workers: 8, XmxMB: 6000},
+		{Name: "append-pb", Module: "AppendPB", Cfg: "AppendPB_thorough.cfg", Tier: "thorough", ToCases: toCases, Timeout: 30 * time.Minute, Workers: 16, XmxMB: 12000},
+		{Name: "append-pb-last-term", Module: "AppendPB", Cfg: "AppendPB_last.cfg", Timeout: 20 * time.Minute, Workers: 8, XmxMB: 6000, ExpectViolation: "OutcomeCorrect"},
 	}
 }
 
@@ -503,7 +557,7 @@ func init() {
 	register(&core.Check{
 		ID:          "C09",
 		Amplify:     amplifyAPI,
-		Designs:     histDesigns("append"),
+		Designs:     append(histDesigns("append"), appendPBDesigns(true)...),
 		TraceModule: "APITrace",
 		Cases: func(env *core.Env) []core.Case {
 			r := env.Rand
